@@ -97,6 +97,7 @@ func c19(c *Ctx) {
 	r.Rule("R-C19.3", "in-memory back end: every radix-tree call is classified read or write and runs with the embedded mutex held in a sufficient mode (forward lock-state dataflow, defer-aware); lock state is none at every return")
 	r.Rule("R-C19.4", "the absent arm of each back end's load returns the ErrNotFound sentinel itself")
 	r.Rule("R-C19.5", "store-once back end: for a node record, delegation to the inner Store is reachable only from the failure edge of a Load of the same ID")
+	r.Rule("R-C19.8", "each back end stores proto.Marshal(msg) (a byte snapshot) and its load writes the destination only through proto.Unmarshal, which resets it first")
 	r.Rule("R-C19.7", "the file back end writes an entry with a primitive that replaces the previous content (os.WriteFile, os.Create, or os.OpenFile with O_TRUNC), directly or in a package-local helper")
 	r.Rule("R-C19.6", "in each back end the entry key of the store, load and remove operations depends on exactly (sub-path, id) plus back-end constants (data-dependence origin set)")
 	r.NotDecided = append(r.NotDecided, "map equivalence over operation sequences", "file-system semantics", "concurrency of the file back end")
@@ -213,6 +214,66 @@ func c19(c *Ctx) {
 			c19Key(c, be, helper)
 		}
 	}
+	// R-C19.8 a stored value is a snapshot and a load replaces the destination
+	for _, be := range []string{"storage/inmem", "storage/file"} {
+		if sv := c.need("R-C19.8", be, "(*Storage).storeValue"); sv != nil {
+			msgP := ssa.Value(sv.Params[len(sv.Params)-1])
+			okSnap := false
+			why := "the stored value is not the marshalled bytes of the message"
+			var marshalled ssa.Value
+			for _, mc := range callsNamed(sv, "google.golang.org/protobuf/proto.Marshal") {
+				if core.Strip(mc.Call.Args[0]) == msgP {
+					marshalled = extractOf(mc, 0)
+				}
+			}
+			for _, ci := range core.AllCalls(sv) {
+				cn := core.CalleeName(ci.Common())
+				var val ssa.Value
+				switch {
+				case strings.HasSuffix(cn, "go-radix.Tree).Insert"):
+					val = ci.Common().Args[2]
+				case cn == "os.WriteFile":
+					val = ci.Common().Args[1]
+				default:
+					if cal := ci.Common().StaticCallee(); cal != nil && cal.Pkg == sv.Pkg && cal.Signature.Recv() == nil && fileOpOnParam(cal) >= 0 && len(ci.Common().Args) > 1 {
+						val = ci.Common().Args[1]
+					}
+				}
+				if val != nil {
+					okSnap = marshalled != nil && core.Strip(val) == marshalled
+					if !okSnap {
+						why = "the value kept by the back end is " + core.ValueName(core.Strip(val)) + ", not proto.Marshal(msg): it shares memory with the caller's message or is not a byte snapshot"
+					}
+				}
+			}
+			r.Check(okSnap, "R-C19.8", core.FuncName(sv)+" stores a snapshot", p.Pos(sv.Pos()), "stores proto.Marshal(msg)", why)
+		}
+		if lv := c.need("R-C19.8", be, "(*Storage).loadValue"); lv != nil {
+			resP := ssa.Value(lv.Params[len(lv.Params)-1])
+			nW, bad := 0, ""
+			for _, ci := range core.AllCalls(lv) {
+				uses := false
+				for _, a := range ci.Common().Args {
+					if core.Strip(a) == resP {
+						uses = true
+					}
+				}
+				if !uses {
+					continue
+				}
+				cn := core.CalleeName(ci.Common())
+				switch cn {
+				case "google.golang.org/protobuf/proto.Unmarshal":
+					nW++ // Unmarshal resets the destination first
+				case "google.golang.org/protobuf/proto.Reset":
+				default:
+					bad = shortName(cn)
+				}
+			}
+			r.Check(nW >= 1 && bad == "", "R-C19.8", core.FuncName(lv)+" replaces the destination", p.Pos(lv.Pos()), "result is written only by proto.Unmarshal (which resets it)", "the destination message is written by "+bad+" (or never by proto.Unmarshal): fields of a previously populated message survive the load")
+		}
+	}
+
 	// R-C19.7 the file back end's store replaces the whole entry
 	if sv := c.need("R-C19.7", "storage/file", "(*Storage).storeValue"); sv != nil {
 		ok, why := truncatingWrite(p, sv, 0)
